@@ -234,6 +234,11 @@ def gen_triple(rng, fmt=None):
             old_items.insert(rng.randint(lo, hi), ("junk", JUNK_LINE[fmt]))
             njunk = 1
     old_text = render(fmt, old_items)
+    apos_ref = set()
+    if fmt == "dtd" and rng.random() < 0.5:
+        # apostrophe-quoted values, in the reference (Entity.wrap keeps the quotes) and the old file
+        apos_ref = c15.dtd_apos_keys(rng, ref_items, 0.5)
+        old_text = c15.dtd_apos(rng, old_text, old_items, 0.5)
     cdata_ref = {}
     if fmt == "android" and rng.random() < 0.4:
         # strings whose content is a CDATA section, plain or surrounded by white-space: in the
@@ -249,7 +254,7 @@ def gen_triple(rng, fmt=None):
     for k in pool[:rng.randint(0, min(4, len(pool)))]:
         if rng.random() < 0.3:
             new_none.append(k)
-        elif rng.random() < 0.08 and fmt not in ("ftl", "po"):
+        elif rng.random() < (0.25 if fmt == "dtd" else 0.08) and fmt not in ("ftl", "po"):
             new_recs.append((k, ""))             # an empty string is a value, not a removal
         else:
             new_recs.append((k, render_value(fmt, rng, "N")))
@@ -266,7 +271,8 @@ def gen_triple(rng, fmt=None):
                 new_data[k] = raws.get(k, "whatever " + v)
     return {"fmt": fmt, "ref_items": ref_items, "old_items": old_items,
             "ref": android_cdata(render(fmt, ref_items), ref_items, cdata_ref) if cdata_ref
-            else render(fmt, ref_items), "old": old_text, "new_data": new_data,
+            else c15.dtd_apos_apply(render(fmt, ref_items), ref_items, apos_ref),
+            "apos_ref": sorted(apos_ref), "old": old_text, "new_data": new_data,
             "new_recs": dict(new_recs), "obsolete": obsolete, "junk": njunk,
             "cdata_ref": {k: list(v) for k, v in cdata_ref.items()}}
 
@@ -298,6 +304,35 @@ def classify(case, sig, junk=()):
 
 
 ANDROID_CDATA_EMPTY = "android-wrapped-cdata-empty-value-reads-back-whitespace"
+DTD_APOS = "dtd-apostrophe-value-in-apostrophe-quoted-entity"
+
+
+def classify_dtd_apos(chk, case, ref):
+    """listed finding: junk in the output of a DTD triple in which an apostrophe-quoted
+    reference entity gets a new value that contains an apostrophe (Entity.wrap keeps the
+    reference's quotes and escapes nothing).  Recognised only when there is such a key and the
+    same triple with the apostrophes taken out of exactly those values passes the whole oracle."""
+    if case["fmt"] != "dtd":
+        return None
+    keys = [k for k in case.get("apos_ref", ()) if "'" in (case["new_recs"].get(k) or "")
+            and case["new_data"].get(k) is not None]
+    if not keys:
+        return None
+    case2 = dict(case)
+    case2["new_recs"] = dict(case["new_recs"])
+    case2["new_data"] = dict(case["new_data"])
+    for k in keys:
+        case2["new_recs"][k] = case["new_recs"][k].replace("'", "")
+        case2["new_data"][k] = case["new_data"][k].replace("'", "")
+    name = FNAME["dtd"]
+    _, text2 = serialize_impl(name, ref, walk_bytes(name, case["old"].encode("utf-8")),
+                              case2["new_data"])
+    if text2 is None:
+        return None
+    sub = common.Check(chk.prop, chk.tier, chk.seed)
+    sub.known = []
+    oracle_serialize(sub, case2, ref, text2)
+    return None if sub.failures else DTD_APOS
 
 
 def classify_cdata_empty(case, got, want):
@@ -340,8 +375,8 @@ def oracle_serialize(chk, case, ref, out_text):
     entries = walk_bytes(name, out_text.encode("utf-8"))
     junk = [e.all for e in entries if ckind(e) == K_JUNK]
     if junk:
-        chk.fail(classify(case, "serialize-reparse-junk", junk), desc,
-                 {"output": out_text, "junk": junk})
+        chk.fail(classify_dtd_apos(chk, case, ref) or classify(case, "serialize-reparse-junk", junk),
+                 desc, {"output": out_text, "junk": junk})
         return
     got = entity_list(fmt, entries)
     if [g[0] for g in got] != [w[0] for w in want]:
@@ -358,8 +393,10 @@ def oracle_serialize(chk, case, ref, out_text):
         for k in ref_keys:
             if new_data.get(k) is not None and not classify(case, "").startswith("inc-wrap"):
                 c = ref_coms[k]
-                piece = (render_comment(fmt, c) + "\n" if c is not None else "") + \
-                    render_entity(fmt, k, case["new_recs"][k])
+                ent = render_entity(fmt, k, case["new_recs"][k])
+                if k in case.get("apos_ref", ()):
+                    ent = "<!ENTITY %s '%s'>" % (k, case["new_recs"][k])
+                piece = (render_comment(fmt, c) + "\n" if c is not None else "") + ent
                 if piece not in out_text:
                     chk.fail("serialize-wrapped-text", desc,
                              {"output": out_text, "key": k, "expected_piece": piece})
@@ -395,6 +432,8 @@ WITNESSES = [
     ("android-wrapped-cdata-empty-value-reads-back-whitespace", "android",
      '<?xml version="1.0" encoding="utf-8"?>\n<resources>\n'
      '  <string name="key_3"> <![CDATA[EN_x]]> </string>\n</resources>\n', "", {"key_3": ""}),
+    ("dtd-apostrophe-value-in-apostrophe-quoted-entity", "dtd",
+     "<!ENTITY key.2 'EN_new: text'>\n", "", {"key.2": "Nit's"}),
     ("serialize-ws-fold-after-junk-joins-lines", "ftl",
      "one = One\ntwo = Two\nfour = Four\n", "one = Eins\n# c\n   junk\nfour = Vier\n",
      {"two": "two = Zwei"}),
@@ -443,6 +482,13 @@ def run_witnesses(chk, only=None):
                           "why": "AndroidEntity.wrap writes the empty value into the CDATA section; "
                                  "minidom drops an empty CDATA section when the output is parsed, "
                                  "the white-space around it is then the string's whole content"})
+        if sig == "dtd-apostrophe-value-in-apostrophe-quoted-entity" and text is not None:
+            junk = [e.all for e in walk_bytes(name, text.encode("utf-8")) if ckind(e) == K_JUNK]
+            if junk:
+                chk.fail(sig, {"fmt": fmt, "ref": ref_t, "old": old_t, "new_data": new_data},
+                         {"output": text, "junk": junk,
+                          "why": "Entity.wrap keeps the reference entity's apostrophes around a "
+                                 "value that itself contains an apostrophe; nothing is escaped"})
         if sig == "ftl-unwrap-includes-comment" and text is not None:
             ents = [e for e in walk_bytes(name, text.encode("utf-8")) if ckind(e) == K_ENTITY]
             if [e.unwrap() for e in ents] != [new_data["k"]]:
